@@ -4,7 +4,7 @@ import json
 import random
 import struct
 
-from ..core import Ctx, prove, finish
+from ..core import ModelRunner, hx, Ctx, prove, finish
 from .. import pyenv
 from ..builders import lzss
 
@@ -209,6 +209,25 @@ def t_seeddb(ctx, rng):
         seeddb._seeds.clear()
         seeddb.load_seeddb(io.BytesIO(raw))
         back = dict(seeddb._seeds)
+        out = model('codec seeddb ' + hx(raw))
+        if out is not None:
+            impl = ','.join('%x:%s' % (k, v.hex()) for k, v in back.items()) + ' ' + hx(raw)
+            if out != impl:
+                ctx.diff('corr', 'seeddb-model', case, out[:120], impl[:120], 'seed DB: Coq model and implementation differ')
+            # a truncated image / a count beyond the file: both stop at the last complete entry
+            cut = raw[:rng.randrange(0, len(raw) + 1)] if rng.random() < 0.5 else (len(db) + rng.randrange(1, 5)).to_bytes(4, 'little') + raw[4:]
+            seeddb._seeds.clear()
+            try:
+                seeddb.load_seeddb(io.BytesIO(cut))
+                impl2 = ','.join('%x:%s' % (k, v.hex()) for k, v in seeddb._seeds.items())
+            except Exception as ex:
+                impl2 = 'e:' + pyenv.errname(ex)
+            out2 = model('codec seeddb ' + hx(cut)).split(' ')[0]
+            if out2 != impl2:
+                ctx.diff('corr', 'seeddb-model-truncated', dict(case, cut=cut.hex()), out2[:120], impl2[:120], 'seed DB (truncated image): Coq model and implementation differ')
+            seeddb._seeds.clear()
+            seeddb._seeds.update(back)
+            ctx.stat('seeddb_model')
         check(ctx, 'seeddb-roundtrip', case, back == db, len(db), len(back), 'seed DB load(save(db)) != db')
         out2 = io.BytesIO()
         seeddb.save_seeddb(out2)
@@ -261,6 +280,38 @@ def t_partdesc(ctx, rng):
     difi = b'DIFI\0\0\1\0' + b''.join(r64().to_bytes(8, 'little') for _ in range(6)) + bytes([rng.choice([0, 1]), rng.getrandbits(8), 0, 0]) + r64().to_bytes(8, 'little')
     ivfc = b'IVFC\0\0\2\0' + r64().to_bytes(8, 'little') + b''.join(r64().to_bytes(8, 'little') + r64().to_bytes(8, 'little') + rng.randrange(0, 25).to_bytes(4, 'little') + bytes(4) for _ in range(4)) + r64().to_bytes(8, 'little')
     dpfs = b'DPFS\0\0\1\0' + b''.join(r64().to_bytes(8, 'little') + r64().to_bytes(8, 'little') + rng.randrange(0, 25).to_bytes(4, 'little') + bytes(4) for _ in range(3))
+    # malformed variants for the modelled descriptors: magic, length, block-size exponent
+    k = rng.randrange(6)
+    if k == 0:
+        ivfc = bytes([ivfc[0] ^ 1]) + ivfc[1:]
+    elif k == 1:
+        dpfs = dpfs + b'\0'
+    elif k == 2:
+        o = 0x10 + 0x18 * rng.randrange(4) + 0x10
+        ivfc = ivfc[:o] + rng.choice([64, 65, 0xFFFFFFFF]).to_bytes(4, 'little') + ivfc[o + 4:]
+    elif k == 3:
+        o = 0x8 + 0x18 * rng.randrange(3) + 0x10
+        dpfs = dpfs[:o] + rng.choice([63, 64, 1 << 31]).to_bytes(4, 'little') + dpfs[o + 4:]
+    for name, cls, raw in (('ivfc', IVFC, ivfc), ('dpfs', DPFS, dpfs)):
+        out = model('codec %s %s' % (name, hx(raw)))
+        if out is None:
+            break
+        case = dict(t=name + '-model', raw=raw.hex())
+        ctx.case(case)
+        try:
+            v = cls.from_bytes(raw)
+            lv = [getattr(v, 'lv%d' % i) for i in range(1, 5 if name == 'ivfc' else 4)]
+            impl = ','.join('%x:%x:%x' % (l.offset, l.size, l.block_size_log2) for l in lv)
+            if name == 'ivfc':
+                impl += ' %x %x' % (v.master_hash_size, v.descriptor_size)
+            impl += ' ' + hx(v.to_bytes())
+        except Exception as ex:
+            impl = 'e:' + pyenv.errname(ex)
+        if out != impl:
+            ctx.diff('corr', name + '-model', case, out[:120], impl[:120], f'{name.upper()} descriptor: Coq model and implementation differ')
+        ctx.stat(name + '_model')
+    if k < 4:
+        return            # the round trips below are about well-formed descriptors
     for name, cls, raw in (('difi', DIFI, difi), ('ivfc', IVFC, ivfc), ('dpfs', DPFS, dpfs)):
         case = dict(t=name, raw=raw.hex())
         ctx.case(case)
@@ -304,8 +355,20 @@ def t_lzss(ctx, rng):
     try:
         out = decompress_code(code)
         check(ctx, 'lzss-roundtrip', case, out == d, len(d), len(out), 'decompress_code(compress(data)) != data')
+        if len(code) <= 1600:
+            m = model('lzss ' + hx(code))
+            if m is not None and m != 'ok:' + out.hex():
+                ctx.diff('corr', 'lzss-model', case, m[:80], out.hex()[:80], 'LZSS decoder: Coq model and decompress_code differ on reference-compressor output')
+            ctx.stat('lzss_model')
     except Exception as ex:
         check(ctx, 'lzss-raises', case, False, 'the data', pyenv.errname(ex) + ': ' + str(ex), 'decompress_code raised on reference-compressor output')
+
+
+MR = [None]          # the extracted model, when a run has opened it
+
+
+def model(line):
+    return MR[0].ask(line) if MR[0] is not None else None
 
 
 TESTS = [t_apptitle, t_smdh, t_config, t_seeddb, t_ncsd, t_partdesc, t_lzss]
@@ -321,8 +384,13 @@ def run_all(ctx, rng, n):
 
 
 def run(ctx):
-    proof = prove('C20', ['tmd', 'smdh', 'difi'], ['C20_props'], static_deps=['Base/Sweep.v', 'Base/Fields.v', 'Base/PyInt.v'])
-    run_all(ctx, ctx.rng, ctx.n(700, 30000))
+    proof = prove('C20', ['tmd', 'smdh', 'difi'], ['C20_props'], static_deps=['Base/Sweep.v', 'Base/Fields.v', 'Base/PyInt.v', 'Proofs/CodecsProofs.v', 'Proofs/NandProofs.v'])
+    MR[0] = ModelRunner()
+    try:
+        run_all(ctx, ctx.rng, ctx.n(700, 30000))
+    finally:
+        MR[0].close()
+        MR[0] = None
     t_words_exhaustive(ctx)
     t_pixels_exhaustive(ctx)
 
